@@ -19,6 +19,15 @@ Supported statements
   for x in E: <assignments / appends / ifs without return> -> `List.foldl` over the tuple of variables the
                                               body assigns (they must be defined before the loop)
   pass, docstrings, assert                 -> skipped
+  for x in E: if C: <stmts>; return R      -> the same `find?`, the statements translated inside the `some` branch
+  continue (inside an accumulating loop)   -> the current tuple of loop variables
+  s.add(e) on a set-valued local           -> `let s := s ++ [e]` (sets are lists that are only ever asked `in`)
+  X.append(e) / X.remove(e) / X.pop(i)     -> on an attribute declared `mutable` (e.g. `self.columns`): the attribute
+                                              is a local (`let cols_ := self_.columns` at the top of the function,
+                                              only when the body mutates it) updated by `++ [e]` / `erase` / `eraseIdx`
+  if x is not None: A else: B              -> for a local known to hold an Optional (`opty`): `match x with
+                                              | some x_some => A | none => B`, `x` narrowed to `x_some` inside A
+  stmt_hook(s, rest, k, depth, st)         -> anything property specific (returns a Lean term or None)
 
 Supported expressions (besides what `pyexpr` handles): names / attributes / calls mapped through `env`
 (keys are `ast.unparse` texts), `None`, `True`/`False`, `x in y`, `x not in y`, `x is None`,
@@ -26,6 +35,14 @@ Supported expressions (besides what `pyexpr` handles): names / attributes / call
 `a + b` on lists (`++`, when `mode='list'` is given for the operands through `listy`), `xs[:]`, `list(xs)`,
 attribute access on names listed in `records` (`c.name` -> `c.name`), method calls listed in `methods`
 (`s.lower()` -> `(lower s)`), and a `hook(node, go)` for anything property specific.
+
+Round 2 (all additive): set comprehensions / `set()` / `set(xs)` as lists -- a set-valued local may only be the
+right operand of `in` / `not in` and the receiver of `.add` (anything else is Untranslatable); comprehensions with
+several generators (`flatMap`); `any(...)` / `all(...)` over a generator; `next((x for x in E if C), None)` as
+`find?` (an Optional); dict comprehensions as association lists whose only uses are `d.get(k)` (the *last* entry
+with that key, an Optional) and `k in d`; attributes listed in `optlist_attrs` (Optional[List], e.g. a column's
+`aliases`): the value is `(x.a.getD [])`, `x.a is None` is `(x.a = none)`, truthiness is non-emptiness;
+`xs or ys` / `xs and ys` between two lists in value position (`if xs ≠ [] then xs else ys`).
 """
 import ast
 
@@ -35,7 +52,7 @@ from .pyexpr import BINOPS_INT, CMPOPS, Untranslatable
 class Expr:
     """Expression translator with an environment; `hook(node, go)` may return a Lean term or None."""
 
-    def __init__(self, env=None, records=(), methods=None, funcs=None, hook=None, listy=()):
+    def __init__(self, env=None, records=(), methods=None, funcs=None, hook=None, listy=(), optlist_attrs=(), opt_hook=None):
         self.env = dict(env or {})
         self.records = set(records)      # python names whose attributes are Lean structure fields
         self.methods = dict(methods or {})  # method name -> lean function applied to the receiver
@@ -43,9 +60,78 @@ class Expr:
         self.hook = hook
         self.listy = set(listy)          # unparse texts known to be lists (so `+` is `++`)
         self.bound = set()               # locally bound python names (loop variables, lets)
+        self.optlist_attrs = set(optlist_attrs)  # attributes of records that hold Optional[List]
+        self.opt_hook = opt_hook         # node -> bool: property specific Optional-valued expressions
+        self.sety = set()                # locals holding a set (only `in`, `not in`, `.add`)
+        self.dicty = set()               # locals holding a dict built by a comprehension (only `.get`, `in`)
+        self.opty = set()                # locals holding an Optional value
+        self.narrow = {}                 # python name -> Lean name of its payload inside `if x is not None`
+        self.mutated = set()             # `mutable` attributes (unparse texts) changed so far on this path
+
+    def typestate(self):
+        return (set(self.bound), set(self.listy), set(self.sety), set(self.dicty), set(self.opty), dict(self.narrow), set(self.mutated))
+
+    def restore(self, st):
+        self.bound, self.listy, self.sety, self.dicty, self.opty, self.narrow, self.mutated = (
+            set(st[0]), set(st[1]), set(st[2]), set(st[3]), set(st[4]), dict(st[5]), set(st[6]))
+
+    def _optlist(self, n):
+        return (isinstance(n, ast.Attribute) and n.attr in self.optlist_attrs and isinstance(n.value, ast.Name)
+                and (n.value.id in self.records or n.value.id in self.bound) and ast.unparse(n) not in self.env)
+
+    @staticmethod
+    def _is_set_expr(n):
+        return isinstance(n, ast.SetComp) or (isinstance(n, ast.Call) and isinstance(n.func, ast.Name) and n.func.id in ("set", "frozenset")
+                                              and len(n.args) <= 1 and not n.keywords)
+
+    def is_opt(self, n):
+        """is the expression Optional-valued (None or a payload)?"""
+        if isinstance(n, ast.Name):
+            return n.id in self.opty and n.id not in self.narrow
+        if isinstance(n, ast.Call) and isinstance(n.func, ast.Attribute) and n.func.attr == "get" and len(n.args) == 1 \
+                and isinstance(n.func.value, ast.Name) and n.func.value.id in self.dicty:
+            return True
+        if isinstance(n, ast.Call) and isinstance(n.func, ast.Name) and n.func.id == "next" and len(n.args) == 2 \
+                and isinstance(n.args[1], ast.Constant) and n.args[1].value is None:
+            return True
+        return bool(self.opt_hook and self.opt_hook(n))
+
+    def container(self, n):
+        """the right operand of `in` / `not in`"""
+        if isinstance(n, ast.Name) and n.id in self.bound and n.id in self.sety:
+            return n.id
+        if isinstance(n, ast.Name) and n.id in self.bound and n.id in self.dicty:
+            return "((%s).map (fun kv => kv.1))" % n.id
+        return self.go(n)
+
+    def comp(self, gens, elt, pair=None):
+        """`[elt for … in … if … for … in …]` (also set / generator / dict comprehensions): map / filter / flatMap"""
+        g = gens[0]
+        if g.is_async:
+            raise Untranslatable("async comprehension")
+        it = self.go(g.iter)
+        pat, names = self.pattern(g.target)
+        saved = self.typestate()
+        self.bound |= names
+        for nm in names:
+            self.sety.discard(nm), self.dicty.discard(nm), self.opty.discard(nm), self.narrow.pop(nm, None)
+        try:
+            src = it
+            for c in g.ifs:
+                src = "(%s).filter (fun %s => decide %s)" % (src, pat, self.cond(c))
+            if len(gens) > 1:
+                return "((%s).flatMap (fun %s => %s))" % (src, pat, self.comp(gens[1:], elt, pair))
+            if pair is not None:
+                return "((%s).map (fun %s => (%s, %s)))" % (src, pat, self.go(pair[0]), self.go(pair[1]))
+            e = self.go(elt)
+        finally:
+            self.restore(saved)
+        if isinstance(elt, ast.Name) and elt.id in names and isinstance(g.target, ast.Name):
+            return "(%s)" % src
+        return "((%s).map (fun %s => %s))" % (src, pat, e)
 
     def is_list(self, n):
-        return isinstance(n, (ast.List, ast.ListComp)) or ast.unparse(n) in self.listy or (
+        return isinstance(n, (ast.List, ast.ListComp)) or ast.unparse(n) in self.listy or self._optlist(n) or (
             isinstance(n, ast.BinOp) and isinstance(n.op, ast.Add) and (self.is_list(n.left) or self.is_list(n.right)))
 
     def cond(self, n):
@@ -82,8 +168,14 @@ class Expr:
             raise Untranslatable("constant %r" % (n.value,))
         if isinstance(n, ast.Name):
             if n.id in self.bound:
+                if n.id in self.narrow:
+                    return self.narrow[n.id]
+                if n.id in self.sety or n.id in self.dicty:
+                    raise Untranslatable("%s %s used other than by `in` / `.add` / `.get`" % ("set" if n.id in self.sety else "dict", n.id))
                 return n.id
             raise Untranslatable("free name %s" % n.id)
+        if self._optlist(n):
+            return "(%s.%s.getD [])" % (self.go(n.value) if n.value.id in self.bound else self.env.get(n.value.id, n.value.id), n.attr)
         if isinstance(n, ast.Attribute):
             if isinstance(n.value, ast.Name) and (n.value.id in self.records or n.value.id in self.bound):
                 # a field of a record: a declared record name, or any locally bound name (loop variables range over
@@ -94,22 +186,10 @@ class Expr:
             return "[" + ", ".join(self.go(e) for e in n.elts) + "]"
         if isinstance(n, ast.Tuple):
             return "(" + ", ".join(self.go(e) for e in n.elts) + ")"
-        if isinstance(n, ast.ListComp) and len(n.generators) == 1 and not n.generators[0].is_async:
-            g = n.generators[0]
-            it = self.go(g.iter)
-            pat, names = self.pattern(g.target)
-            saved = set(self.bound)
-            self.bound |= names
-            try:
-                src = it
-                for c in g.ifs:
-                    src = "(%s).filter (fun %s => decide %s)" % (src, pat, self.cond(c))
-                elt = self.go(n.elt)
-            finally:
-                self.bound = saved
-            if isinstance(n.elt, ast.Name) and n.elt.id in names and isinstance(g.target, ast.Name):
-                return "(%s)" % src
-            return "((%s).map (fun %s => %s))" % (src, pat, elt)
+        if isinstance(n, (ast.ListComp, ast.SetComp)):
+            return self.comp(n.generators, n.elt)
+        if isinstance(n, ast.DictComp):
+            return self.comp(n.generators, None, pair=(n.key, n.value))
         if isinstance(n, ast.Subscript) and isinstance(n.slice, ast.Slice) and n.slice.lower is None \
                 and n.slice.upper is None and n.slice.step is None:
             return self.go(n.value)  # xs[:] -- a copy; values are immutable here
@@ -129,6 +209,10 @@ class Expr:
             if isinstance(n.op, ast.USub):
                 return "(-%s)" % self.go(n.operand)
             raise Untranslatable("unary %s" % type(n.op).__name__)
+        if isinstance(n, ast.BoolOp) and len(n.values) == 2 and all(self.is_list(v) for v in n.values):
+            # `xs or ys` / `xs and ys` as values: Python returns one of the operands, chosen by the emptiness of the first
+            a, b = self.go(n.values[0]), self.go(n.values[1])
+            return "(if %s ≠ [] then %s else %s)" % ((a, a, b) if isinstance(n.op, ast.Or) else (a, b, a))
         if isinstance(n, ast.BoolOp):
             j = " ∧ " if isinstance(n.op, ast.And) else " ∨ "
             return "(" + j.join(self.cond(v) for v in n.values) + ")"
@@ -136,9 +220,13 @@ class Expr:
             parts, left = [], n.left
             for op, right in zip(n.ops, n.comparators):
                 if isinstance(op, ast.In):
-                    parts.append("(%s ∈ %s)" % (self.go(left), self.go(right)))
+                    parts.append("(%s ∈ %s)" % (self.go(left), self.container(right)))
                 elif isinstance(op, ast.NotIn):
-                    parts.append("(%s ∉ %s)" % (self.go(left), self.go(right)))
+                    parts.append("(%s ∉ %s)" % (self.go(left), self.container(right)))
+                elif isinstance(op, (ast.Is, ast.IsNot)) and isinstance(right, ast.Constant) and right.value is None \
+                        and self._optlist(left):
+                    rec = self.go(left.value) if left.value.id in self.bound else self.env.get(left.value.id, left.value.id)
+                    parts.append("(%s.%s %s none)" % (rec, left.attr, "=" if isinstance(op, ast.Is) else "≠"))
                 elif isinstance(op, ast.Is) and isinstance(right, ast.Constant) and right.value is None:
                     parts.append("(%s = none)" % self.go(left))
                 elif isinstance(op, ast.IsNot) and isinstance(right, ast.Constant) and right.value is None:
@@ -160,6 +248,43 @@ class Expr:
                     return self.go(n.args[0])
                 if f.id == "len" and len(n.args) == 1:
                     return "(%s).length" % self.go(n.args[0])
+                if f.id in ("set", "frozenset") and len(n.args) <= 1:
+                    return self.go(n.args[0]) if n.args else "[]"
+                if f.id in ("any", "all") and len(n.args) == 1 and isinstance(n.args[0], (ast.GeneratorExp, ast.ListComp)) \
+                        and len(n.args[0].generators) == 1:
+                    g = n.args[0].generators[0]
+                    src = self.comp([g], g.target) if isinstance(g.target, ast.Name) else None
+                    if src is None:
+                        raise Untranslatable("call %s" % key)
+                    pat, names = self.pattern(g.target)
+                    saved = self.typestate()
+                    self.bound |= names
+                    try:
+                        body = self.cond(n.args[0].elt)
+                    finally:
+                        self.restore(saved)
+                    return "((%s).%s (fun %s => decide %s))" % (src, f.id, pat, body)
+                if f.id == "next" and len(n.args) == 2 and isinstance(n.args[1], ast.Constant) and n.args[1].value is None \
+                        and isinstance(n.args[0], ast.GeneratorExp) and len(n.args[0].generators) == 1 \
+                        and isinstance(n.args[0].generators[0].target, ast.Name):
+                    g = n.args[0].generators[0]
+                    pat, names = self.pattern(g.target)
+                    it = self.go(g.iter)
+                    saved = self.typestate()
+                    self.bound |= names
+                    try:
+                        test = "(%s)" % " ∧ ".join(self.cond(c) for c in g.ifs) if g.ifs else None
+                        e = self.go(n.args[0].elt)
+                    finally:
+                        self.restore(saved)
+                    found = "((%s).find? (fun %s => decide %s))" % (it, pat, test) if test else "((%s).head?)" % it
+                    if isinstance(n.args[0].elt, ast.Name) and n.args[0].elt.id in names:
+                        return found
+                    return "(%s.map (fun %s => %s))" % (found, pat, e)
+            if isinstance(f, ast.Attribute) and f.attr == "get" and len(n.args) == 1 and isinstance(f.value, ast.Name) \
+                    and f.value.id in self.bound and f.value.id in self.dicty:
+                # a dict built by a comprehension: later entries overwrite earlier ones
+                return "((((%s).reverse).find? (fun kv => decide (kv.1 = %s))).map (fun kv => kv.2))" % (f.value.id, self.go(n.args[0]))
             if isinstance(f, ast.Attribute) and f.attr in self.methods:
                 return "(%s %s%s)" % (self.methods[f.attr], self.go(f.value), "".join(" " + self.go(a) for a in n.args))
             raise Untranslatable("call %s" % key)
@@ -174,7 +299,28 @@ class Expr:
         raise Untranslatable("loop target %s" % ast.unparse(target))
 
 
-def _assigned(stmts):
+MUTATORS = ("append", "remove", "pop")
+
+
+def _mutations(stmts, mutable):
+    """keys of `mutable` (unparse texts of attributes) that the statements change through a list method"""
+    out = []
+    for s in stmts:
+        for n in ast.walk(s):
+            if isinstance(n, ast.Call) and isinstance(n.func, ast.Attribute) and ast.unparse(n.func.value) in (mutable or {}) \
+                    and n.func.attr in MUTATORS + ("insert", "extend", "clear", "sort", "reverse", "__delitem__", "__setitem__"):
+                if ast.unparse(n.func.value) not in out:
+                    out.append(ast.unparse(n.func.value))
+            elif isinstance(n, (ast.Delete, ast.Assign, ast.AugAssign)):
+                tg = n.targets if not isinstance(n, ast.AugAssign) else [n.target]
+                for t in tg:
+                    base = t.value if isinstance(t, ast.Subscript) else t
+                    if ast.unparse(base) in (mutable or {}) and ast.unparse(base) not in out:
+                        out.append(ast.unparse(base))
+    return out
+
+
+def _assigned(stmts, mutable=None):
     """python names a block assigns, augments or appends to (in first-assignment order)."""
     out = []
 
@@ -196,8 +342,10 @@ def _assigned(stmts):
                 else:
                     raise Untranslatable("assignment target %s" % ast.unparse(n.target))
             elif isinstance(n, ast.Expr) and isinstance(n.value, ast.Call) and isinstance(n.value.func, ast.Attribute) \
-                    and n.value.func.attr == "append" and isinstance(n.value.func.value, ast.Name):
+                    and n.value.func.attr in ("append", "add") and isinstance(n.value.func.value, ast.Name):
                 add(n.value.func.value.id)
+    for key in _mutations(stmts, mutable):
+        add(mutable[key])
     return out
 
 
@@ -208,14 +356,36 @@ def _has(stmts, kinds):
 class Stmts:
     """Statement translator.  `ret(node_or_None, ex)` renders a returned value, `raise_(node, ex)` a raise."""
 
-    def __init__(self, ex, ret=None, raise_=None, indent="  ", stmt_hook=None):
+    def __init__(self, ex, ret=None, raise_=None, indent="  ", stmt_hook=None, mutable=None, fold_redex=False):
         self.ex = ex
         self.ret = ret or (lambda v, ex: "none" if v is None else ex.go(v))
         self.raise_ = raise_
         self.ind = indent
-        # property specific statement shapes (e.g. `try: x = next(it) … except StopIteration: …` over a
-        # state-passing iterator): `stmt_hook(s, rest, k, depth, self)` returns a Lean term or None
-        self.stmt_hook = stmt_hook
+        self.stmt_hook = stmt_hook       # (s, rest, k, depth, self) -> Lean term or None
+        self.mutable = dict(mutable or {})  # unparse text of an attribute -> Lean local holding its current value
+        self.loop_k = []                 # continuation of the enclosing accumulating loops (for `continue`)
+        self.fold_redex = fold_redex     # single-variable loops as `(fun l i f => List.foldl f i l) E x (fun x pat => …)`
+
+    def _mutation(self, s):
+        """`X.append(e)` / `X.remove(e)` / `X.pop(i)` as a statement on a `mutable` attribute -> (key, new value)"""
+        if not (isinstance(s, ast.Expr) and isinstance(s.value, ast.Call) and isinstance(s.value.func, ast.Attribute)):
+            return None
+        c = s.value
+        key = ast.unparse(c.func.value)
+        if key not in self.mutable or c.keywords:
+            return None
+        var = self.mutable[key]
+        if var not in self.ex.bound:
+            raise Untranslatable("%s is changed but was not made a local" % key)
+        if c.func.attr == "append" and len(c.args) == 1:
+            return key, "(%s ++ [%s])" % (var, self.ex.go(c.args[0]))
+        if c.func.attr == "remove" and len(c.args) == 1:
+            if self.ex.is_opt(c.args[0]):
+                raise Untranslatable("remove(<Optional>)")
+            return key, "((%s).erase %s)" % (var, self.ex.go(c.args[0]))
+        if c.func.attr == "pop" and len(c.args) == 1:
+            return key, "((%s).eraseIdx %s)" % (var, self.ex.go(c.args[0]))
+        raise Untranslatable("mutation %s" % ast.unparse(s)[:60])
 
     def block(self, stmts, k, depth=1):
         """Lean term for the statement list; `k` is the term for falling off its end."""
@@ -232,6 +402,18 @@ class Stmts:
             return self.block(rest, k, depth)
         if isinstance(s, ast.Return):
             return self.ret(s.value, ex)
+        if isinstance(s, ast.Continue) and self.loop_k:
+            return self.loop_k[-1]
+        m = self._mutation(s)
+        if m is not None:
+            key, v = m
+            saved = ex.typestate()
+            ex.mutated.add(key)
+            try:
+                body = self.block(rest, k, depth)
+            finally:
+                ex.restore(saved)
+            return "let %s := %s\n%s%s" % (self.mutable[key], v, pad, body)
         if isinstance(s, ast.Raise):
             if self.raise_ is None:
                 raise Untranslatable("raise")
@@ -240,14 +422,22 @@ class Stmts:
             v = ex.go(s.value)
             name = s.targets[0].id
             was_list = ex.is_list(s.value)
-            saved_b, saved_l = set(ex.bound), set(ex.listy)
+            is_set, is_dict, is_opt = ex._is_set_expr(s.value), isinstance(s.value, ast.DictComp), ex.is_opt(s.value)
+            saved = ex.typestate()
             ex.bound.add(name)
+            ex.listy.discard(name), ex.sety.discard(name), ex.dicty.discard(name), ex.opty.discard(name), ex.narrow.pop(name, None)
             if was_list:
                 ex.listy.add(name)
+            if is_set:
+                ex.sety.add(name)
+            if is_dict:
+                ex.dicty.add(name)
+            if is_opt:
+                ex.opty.add(name)
             try:
                 body = self.block(rest, k, depth)
             finally:
-                ex.bound, ex.listy = saved_b, saved_l
+                ex.restore(saved)
             return "let %s := %s\n%s%s" % (name, v, pad, body)
         if isinstance(s, ast.Assign) and len(s.targets) == 1 and isinstance(s.targets[0], ast.Attribute) \
                 and isinstance(s.targets[0].value, ast.Name) and s.targets[0].value.id in ex.bound:
@@ -262,6 +452,45 @@ class Stmts:
                 raise Untranslatable("append to %s, which is not a local" % tgt.id)
             v = "(%s ++ [%s])" % (ex.go(tgt), ex.go(s.value.args[0]))
             return "let %s := %s\n%s%s" % (tgt.id, v, pad, self.block(rest, k, depth))
+        if isinstance(s, ast.Expr) and isinstance(s.value, ast.Call) and isinstance(s.value.func, ast.Attribute) \
+                and s.value.func.attr == "add" and isinstance(s.value.func.value, ast.Name) and len(s.value.args) == 1 \
+                and s.value.func.value.id in ex.bound and s.value.func.value.id in ex.sety:
+            tgt = s.value.func.value.id
+            return "let %s := (%s ++ [%s])\n%s%s" % (tgt, tgt, ex.go(s.value.args[0]), pad, self.block(rest, k, depth))
+        if isinstance(s, ast.If) and isinstance(s.test, ast.Compare) and len(s.test.ops) == 1 and isinstance(s.test.left, ast.Name) \
+                and isinstance(s.test.ops[0], (ast.Is, ast.IsNot)) and isinstance(s.test.comparators[0], ast.Constant) \
+                and s.test.comparators[0].value is None and ex.is_opt(s.test.left) and s.test.left.id in ex.bound:
+            # narrowing: inside the branch where the Optional is not None its name denotes the payload
+            x = s.test.left.id
+            some_b, none_b = (s.body, s.orelse) if isinstance(s.test.ops[0], ast.IsNot) else (s.orelse, s.body)
+
+            def tail(extra_mutated):
+                saved = ex.typestate()
+                ex.mutated |= set(extra_mutated)
+                try:
+                    return self.block(rest, k, depth + 1)
+                finally:
+                    ex.restore(saved)
+
+            for br in (some_b, none_b):
+                late = [v for v in _assigned(list(br)) if v not in ex.bound and v not in self.mutable.values()]
+                if late and rest:
+                    raise Untranslatable("%s is first assigned inside `if %s is (not) None`" % (late[0], x))
+            def ends(br):
+                return bool(br) and isinstance(br[-1], (ast.Return, ast.Raise))
+
+            saved = ex.typestate()
+            ex.narrow[x] = x + "_some"
+            try:
+                if ends(none_b) and not ends(some_b):
+                    # `if x is None: return …` -- what follows runs only with the payload present
+                    a = self.block(list(some_b) + rest, k, depth + 1)
+                else:
+                    a = self.block(list(some_b), "" if ends(some_b) else tail(_mutations(list(some_b), self.mutable)), depth + 1)
+            finally:
+                ex.restore(saved)
+            b = self.block(list(none_b), "" if ends(none_b) else tail(_mutations(list(none_b), self.mutable)), depth + 1)
+            return "match %s with\n%s| some %s_some =>\n%s%s%s\n%s| none =>\n%s%s%s" % (x, pad, x, pad, self.ind, a, pad, pad, self.ind, b)
         if isinstance(s, ast.If):
             t = ex.cond(s.test)
             a = self.block(list(s.body) + rest, k, depth + 1)
@@ -289,51 +518,90 @@ class Stmts:
         # shape 1: first match returns
         if len(body) == 1 and isinstance(body[0], ast.If) and not body[0].orelse and len(body[0].body) == 1 \
                 and isinstance(body[0].body[0], ast.Return):
-            saved = set(ex.bound)
+            saved = ex.typestate()
             ex.bound |= names
             try:
                 test = ex.cond(body[0].test)
                 r = self.ret(body[0].body[0].value, ex)
             finally:
-                ex.bound = saved
+                ex.restore(saved)
             tail = self.block(rest, k, depth + 1)
             return ("match (%s).find? (fun %s => decide %s) with\n%s| some %s => %s\n%s| none =>\n%s%s%s"
                     % (src, pat, test, pad, pat, r, pad, pad, self.ind, tail))
+        # shape 1': the first match runs a few statements and returns
+        if len(body) == 1 and isinstance(body[0], ast.If) and not body[0].orelse and isinstance(body[0].body[-1], ast.Return) \
+                and not _has(body[0].body, (ast.Break, ast.Continue, ast.For, ast.While)) \
+                and sum(isinstance(n, ast.Return) for b in body[0].body for n in ast.walk(b)) == 1:
+            saved = ex.typestate()
+            ex.bound |= names
+            try:
+                test = ex.cond(body[0].test)
+                r = self.block(list(body[0].body), k, depth + 1)
+            finally:
+                ex.restore(saved)
+            tail = self.block(rest, k, depth + 1)
+            return ("match (%s).find? (fun %s => decide %s) with\n%s| some %s =>\n%s%s%s\n%s| none =>\n%s%s%s"
+                    % (src, pat, test, pad, pat, pad, self.ind, r, pad, pad, self.ind, tail))
         # shape 2: a fold over the variables the body assigns
-        if _has(body, (ast.Return, ast.Break, ast.Continue, ast.Raise, ast.For, ast.While)):
-            raise Untranslatable("loop body with return/break/continue/raise/nested loop")
-        state = _assigned(body)
+        if _has(body, (ast.Return, ast.Break, ast.Raise, ast.For, ast.While)):
+            raise Untranslatable("loop body with return/break/raise/nested loop")
+        state = _assigned(body, self.mutable)
         for v in state:
             if v not in ex.bound:
                 raise Untranslatable("loop assigns %s, which is not defined before the loop" % v)
         if not state:
             raise Untranslatable("loop without effect")
         tup = state[0] if len(state) == 1 else "(" + ", ".join(state) + ")"
-        saved = set(ex.bound)
+        saved = ex.typestate()
         ex.bound |= names
+        self.loop_k.append(tup)
         try:
             step = self.block(body, tup, depth + 2)
         finally:
-            ex.bound = saved
-        tail = self.block(rest, k, depth)
+            self.loop_k.pop()
+            ex.restore(saved)
+        saved = ex.typestate()
+        ex.mutated |= set(_mutations(body, self.mutable))
+        try:
+            tail = self.block(rest, k, depth)
+        finally:
+            ex.restore(saved)
+        if len(state) == 1 and self.fold_redex:
+            # with a single loop variable Lean elaborates the step function before it knows the element type (a test on
+            # the element gives `typeclass instance problem is stuck`); a beta-redex puts the list and the initial value
+            # first.  Opt-in (`fold_redex=True`), so translations pinned by other users keep their text.
+            return ("let %s := (fun l i f => List.foldl f i l) (%s) %s (fun %s %s =>\n%s%s%s%s)\n%s%s"
+                    % (tup, src, tup, tup, pat, pad, self.ind, self.ind, step, pad, tail))
         return ("let %s := (%s).foldl (fun %s %s =>\n%s%s%s%s) %s\n%s%s"
                 % (tup, src, tup, pat, pad, self.ind, self.ind, step, tup, pad, tail))
 
 
-def function(fn, name, params, ret_type, ex, ret=None, raise_=None, k="none", binders="", stmt_hook=None):
+def function(fn, name, params, ret_type, ex, ret=None, raise_=None, k="none", binders="", stmt_hook=None, mutable=None,
+             fold_redex=False):
     """A Lean `def` for the python FunctionDef `fn`.  `params`: list of (python name or None, lean binder text);
-    python names are bound in the expression translator."""
-    st = Stmts(ex, ret=ret, raise_=raise_, stmt_hook=stmt_hook)
-    saved = set(ex.bound)
+    python names are bound in the expression translator.  `mutable`: {unparse text of an attribute: Lean local}; an
+    attribute the body changes in place becomes that local (initialised from `ex.env`), which `ret` / `k` may mention
+    through `ex.env` (a callable `k` is called with `ex` once the locals are set up)."""
+    st = Stmts(ex, ret=ret, raise_=raise_, stmt_hook=stmt_hook, mutable=mutable, fold_redex=fold_redex)
+    saved, saved_env, saved_listy = ex.typestate(), dict(ex.env), set(ex.listy)
     for p, _ in params:
         if p:
             ex.bound.add(p)
     try:
-        body = st.block(list(fn.body), k, 1)
+        lets = ""
+        for key in _mutations(list(fn.body), mutable):
+            var = mutable[key]
+            if key not in ex.env:
+                raise Untranslatable("mutable %s has no initial value" % key)
+            lets += "let %s := %s\n  " % (var, ex.env[key])
+            ex.env[key] = var
+            ex.bound.add(var)
+        body = st.block(list(fn.body), k(ex) if callable(k) else k, 1)
     finally:
-        ex.bound = saved
+        ex.restore(saved)
+        ex.env, ex.listy = saved_env, saved_listy
     sig = " ".join(b for _, b in params)
-    return "def %s %s%s : %s :=\n  %s\n" % (name, (binders + " ") if binders else "", sig, ret_type, body)
+    return "def %s %s%s : %s :=\n  %s%s\n" % (name, (binders + " ") if binders else "", sig, ret_type, lets, body)
 
 
 def generator_as_list(gen_fn, ex):
